@@ -41,7 +41,7 @@ def run(ctx, rep):
         "tail untransformed; the clean-mode treatment of tail is the same code as that of text (sibling agreement); one unfiltered "
         "loop over the element attaches every non-comment child in order with the same flags; attributes are split on the Clark "
         "brace; the reserved xml namespace is translated to the xml: prefix")
-    rep.rules_run = ["R1", "R2", "R3", "R4", "R5", "R6"]
+    rep.rules_run = ["R1", "R2", "R3", "R4", "R5", "R6", "R7", "R8"]
     rep.assumptions += ["NOT decided: what lxml parses; what strip/split/the whitespace regex do to every string; import-export-import stability"]
     prog = ctx.prog
     w = ctx.world
@@ -413,6 +413,45 @@ def run(ctx, rep):
     rep.oblige(("R1", "entry"), ok)
     if not ok:
         rep.add("R1", fx.qname, "_process_element(root, clean, collapse, literals)", "from_xml does not hand its flags to the converter unchanged", fx.loc())
+    # ---- R7 the import is a function of the document alone: no long-lived state on the import slice (sound memo tables excepted)
+    from ..memo import check_slice
+    from ..valslice import reachable
+    sl = [f for f in reachable(ctx, [fx]) if f.module.name.startswith("metapype.model.metapype_io")]
+    check_slice(ctx, rep, "R7", sl, "XML import")
+    # ---- R8 the parser is lxml's default: parser options change the infoset the importer is to mirror
+    INFOSET_NEUTRAL = {"remove_comments", "huge_tree", "no_network", "collect_ids", "encoding", "schema", "target"}
+    for n in ast.walk(fx.node):
+        if isinstance(n, ast.Call) and isinstance(n.func, ast.Attribute) and n.func.attr in ("fromstring", "XML", "parse"):
+            rep.count("parser invocations in from_xml")
+            pa = n.args[1] if len(n.args) > 1 else next((k.value for k in n.keywords if k.arg == "parser"), None)
+            if pa is None:
+                rep.oblige(("R8", "default parser"), True)
+                continue
+            cands = [pa]
+            if isinstance(pa, ast.Name):
+                cands = [a.value for a in ast.walk(fx.node) if isinstance(a, ast.Assign) and any(isinstance(t, ast.Name) and t.id == pa.id for t in a.targets)] or [pa]
+            flat = []
+            for c in cands:
+                flat.extend([c.body, c.orelse] if isinstance(c, ast.IfExp) else [c])
+            for c in flat:
+                ctor = c
+                if isinstance(c, (ast.Name, ast.Attribute)):
+                    r = prog.resolve_name_expr(fx.module, c)
+                    ctor = r[1].consts.get(r[2]) if r and r[0] == "const" else None
+                bad = None
+                if isinstance(ctor, ast.Constant) and ctor.value is None:
+                    continue
+                if not (isinstance(ctor, ast.Call) and norm(ctor.func).endswith("XMLParser")):
+                    bad = f"`{norm(c)}` is not a plain lxml XMLParser"
+                else:
+                    opts = [k.arg for k in ctor.keywords if k.arg not in INFOSET_NEUTRAL and not (isinstance(k.value, ast.Constant) and k.value.value in (False, None)
+                                                                                                 and k.arg in ("remove_blank_text", "strip_cdata", "recover", "ns_clean", "remove_pis"))]
+                    if opts or ctor.args:
+                        bad = f"parser option(s) {opts or '(positional)'} change what the parser delivers (e.g. remove_blank_text drops blank text and tails the whitespace policy keeps)"
+                rep.oblige(("R8", norm(c)), bad is None)
+                if bad:
+                    rep.add("R8", fx.qname, n, f"from_xml parses with a non-default parser: {bad}", fx.loc(n))
+    rep.floor("parser invocations in from_xml", 1)
     rep.floor("raw-mode assignments", 2)
     rep.floor("whitespace-policy blocks", 2)
     rep.floor("attribute split verdicts", 4)
